@@ -17,6 +17,10 @@ extern const struct dispatch_data_format_type_s _dispatch_data_format_type_none,
 dispatch_data_t dispatch_data_create_with_transform(dispatch_data_t, const struct dispatch_data_format_type_s*, const struct dispatch_data_format_type_s*);
 dispatch_queue_attr_t dispatch_queue_attr_make_with_overcommit(dispatch_queue_attr_t, bool);
 extern uint64_t _dispatch_verif_timeout(dispatch_time_t when);
+extern void _dispatch_verif_queue_peek(dispatch_queue_t dq, uint16_t *width, uint64_t *state, uint32_t *priority, const char **target_label);
+void dispatch_async_and_wait_f(dispatch_queue_t, void*, dispatch_function_t);
+#include <sys/wait.h>
+#include <signal.h>
 
 // ---- clock interposition: the library calls clock_gettime through the PLT, so this definition wins
 static int fake_clocks = 0;
@@ -57,6 +61,36 @@ static dispatch_data_t build_regions(char *spec){
     dispatch_data_t c=dispatch_data_create_concat(d,leaf); dispatch_release(leaf); dispatch_release(d); d=c; }
   return d; }
 
+// ---- C18: hierarchies. "SQ <parents> <conc> <vals> <q> <k> <path> [ctx]" and "SA <parents> <conc> <q> <a> <neg> <path> [ctx]"
+//   parents: comma list, -1 = targets a global queue; conc: comma list of 0/1; vals: q:k:v;... or '-'
+#define MAXQ 16
+#define NK 4
+static char skeys[NK];
+struct hier { int nq; dispatch_queue_t q[MAXQ]; };
+static void build_hier(struct hier *h, char *parents, char *conc){
+  int par[MAXQ], cc[MAXQ]; h->nq=0; char *sv=NULL;
+  for(char *t=strtok_r(parents,",",&sv); t && h->nq<MAXQ; t=strtok_r(NULL,",",&sv)) par[h->nq++]=atoi(t);
+  int i=0; sv=NULL; for(char *t=strtok_r(conc,",",&sv); t && i<MAXQ; t=strtok_r(NULL,",",&sv)) cc[i++]=atoi(t);
+  for(i=0;i<h->nq;i++){ dispatch_queue_attr_t a = cc[i]? DISPATCH_QUEUE_CONCURRENT : DISPATCH_QUEUE_SERIAL;
+    h->q[i] = par[i]<0 ? dispatch_queue_create("hq", a) : dispatch_queue_create_with_target("hq", a, h->q[par[i]]); } }
+static void free_hier(struct hier *h){ for(int i=h->nq-1;i>=0;i--) dispatch_release(h->q[i]); }
+struct probe { int kind; const void *key; dispatch_queue_t aq; int neg; volatile long got; dispatch_queue_t inner; int path; struct probe *self; };
+static void probe_fn(void *c){ struct probe *p=c;
+  if(p->kind==0) p->got=(long)(intptr_t)dispatch_get_specific(p->key);
+  else { if(p->neg) dispatch_assert_queue_not(p->aq); else dispatch_assert_queue(p->aq); p->got=1; } }
+static void probe_apply(void *c, size_t i){ if(i==0) probe_fn(c); }
+static void submit(dispatch_queue_t q, int path, struct probe *p){
+  switch(path){
+  case 0: { dispatch_group_t g=dispatch_group_create(); dispatch_group_async_f(g,q,p,probe_fn); dispatch_group_wait(g,DISPATCH_TIME_FOREVER); dispatch_release(g); break; }
+  case 1: dispatch_sync_f(q,p,probe_fn); break;
+  case 2: dispatch_barrier_sync_f(q,p,probe_fn); break;
+  case 3: dispatch_async_and_wait_f(q,p,probe_fn); break;
+  case 4: dispatch_apply_f(2,q,p,probe_apply); break;
+  case 5: { dispatch_semaphore_t s=dispatch_semaphore_create(0); dispatch_barrier_async(q,^{ probe_fn(p); dispatch_semaphore_signal(s); }); dispatch_semaphore_wait(s,DISPATCH_TIME_FOREVER); dispatch_release(s); break; }
+  default: { dispatch_semaphore_t s=dispatch_semaphore_create(0); dispatch_async(q,^{ probe_fn(p); dispatch_semaphore_signal(s); }); dispatch_semaphore_wait(s,DISPATCH_TIME_FOREVER); dispatch_release(s); break; }
+  } }
+static void outer_fn(void *c){ struct probe *p=c; submit(p->inner, p->path, p); }
+
 #define MAXS 64
 int main(void){
   base = (char*)DISPATCH_QUEUE_CONCURRENT;
@@ -87,6 +121,23 @@ int main(void){
     else if(!strcmp(tok,"AI")){ long i=atol(strtok(NULL," \n")); printf("%ld\n", idx_of(dispatch_queue_attr_make_initially_inactive(attr_of(i)))); }
     else if(!strcmp(tok,"AO")){ long i=atol(strtok(NULL," \n")); int b=atoi(strtok(NULL," \n")); printf("%ld\n", idx_of(dispatch_queue_attr_make_with_overcommit(attr_of(i),b))); }
     else if(!strcmp(tok,"AF")){ long i=atol(strtok(NULL," \n")); int f=atoi(strtok(NULL," \n")); printf("%ld\n", idx_of(dispatch_queue_attr_make_with_autorelease_frequency(attr_of(i),(dispatch_autorelease_frequency_t)f))); }
+    else if(!strcmp(tok,"QC")){ long i=atol(strtok(NULL," \n")); dispatch_queue_t q=dispatch_queue_create("qc",attr_of(i));
+      int rel=0; unsigned cls=(unsigned)dispatch_queue_get_qos_class(q,&rel); uint16_t w; uint64_t st; uint32_t pr; const char *tl;
+      _dispatch_verif_queue_peek(q,&w,&st,&pr,&tl);
+      printf("%u %d %d %d\n", cls, rel, w!=1, (int)((st>>56)&1)); if((st>>56)&1) dispatch_activate(q); dispatch_release(q); }
+    else if(!strcmp(tok,"GQ")){ long id=atol(strtok(NULL," \n")); unsigned long fl=strtoul(strtok(NULL," \n"),NULL,10);
+      dispatch_queue_t q=(dispatch_queue_t)dispatch_get_global_queue(id,fl); puts(q? dispatch_queue_get_label(q) : "NULL"); }
+    else if(!strcmp(tok,"SQ")||!strcmp(tok,"SA")){ int isq = tok[1]=='Q';
+      char *parents=strtok(NULL," \n"), *conc=strtok(NULL," \n"), *vals = isq? strtok(NULL," \n") : NULL;
+      int q=atoi(strtok(NULL," \n")); int k_or_a=atoi(strtok(NULL," \n")); int neg = isq?0:atoi(strtok(NULL," \n")); int path=atoi(strtok(NULL," \n"));
+      char *cx=strtok(NULL," \n"); int ctx = cx? atoi(cx) : -1;
+      if(!isq){ fflush(stdout); pid_t pid=fork(); if(pid>0){ int stt; waitpid(pid,&stt,0); puts((WIFEXITED(stt)&&WEXITSTATUS(stt)==0)?"ok": (WIFSIGNALED(stt)&&WTERMSIG(stt)==SIGALRM)?"timeout":"crash"); continue; }
+        freopen("/dev/null","w",stderr); alarm(20); }
+      struct hier h; build_hier(&h,parents,conc);
+      if(isq && vals && vals[0]!='-'){ char *sv=NULL; for(char *t=strtok_r(vals,";",&sv); t; t=strtok_r(NULL,";",&sv)){ int a,b; long v; if(sscanf(t,"%d:%d:%ld",&a,&b,&v)==3 && a<h.nq && b<NK) dispatch_queue_set_specific(h.q[a],&skeys[b],(void*)(intptr_t)v,NULL); } }
+      struct probe p={ .kind=isq?0:1, .key=&skeys[isq?k_or_a:0], .aq=isq?NULL:h.q[k_or_a], .neg=neg, .got=-1, .inner=h.q[q], .path=path };
+      if(ctx>=0) dispatch_sync_f(h.q[ctx],&p,outer_fn); else submit(h.q[q],path,&p);
+      if(isq){ printf("%ld\n",p.got); free_hier(&h); } else _exit(0); }
     else if(!strcmp(tok,"X")){
       dispatch_data_t st[MAXS]; int sp=0; int nleaf=1; char *t;
       while((t=strtok(NULL," \n"))){
